@@ -35,6 +35,13 @@ def run_table(tier, seed):
         for pen in G.R.PENALTIES:
             out.append({"t": "run", "spec": spec, "cfg": {"penalty": pen, "iteration_limit": 80, "params": {"rho": 1e-17}}, "sc": None})
             out.append({"t": "run", "spec": spec, "cfg": {"penalty": pen, "iteration_limit": 80, "params": {"rho": 1e-8, "precision": "Single"}}, "sc": None})
+    # every penalty policy with every step-size controller, and with non-default tolerances / gains
+    for spec in specs[:3]:
+        for pen in G.R.PENALTIES:
+            for ctl in ("Fixed", "ResiduumRatio"):
+                out.append({"t": "run", "spec": spec, "cfg": {"penalty": pen, "control": ctl, "iteration_limit": 80, "params": {"rho": 1e-3}}, "sc": None})
+            for vi in range(len(G.PARAM_VARIANTS)):
+                out.append({"t": "run", "spec": spec, "cfg": {"penalty": pen, "iteration_limit": 80, "params": {"rho": 1e-3}, "pv": vi}, "sc": None})
     for spec in G.exact_feasibility_specs():
         for pen in G.R.PENALTIES:
             for rho0 in (1e-8, 1e-3):
@@ -58,13 +65,14 @@ def run_case(case):
         return L.run_chunk(case, ID)
     from pgfmc.drive.run import outcome_of
 
+    case = G.with_variant(case)
     ctx = G.execute(case)
     if ctx.setup_error is not None:
         return {"outcome": "setup:" + type(ctx.setup_error).__name__, "key": None, "violations": [], "stats": {}}
     viol = M.mon_c16(ctx.rec, ctx.params, case["cfg"]["penalty"])
     rhos = {t.rho for t in ctx.rec.trials}
     return {"outcome": outcome_of(ctx.rec),
-            "key": f"{case['spec']['tag']}|{case['cfg']['penalty']}|{case['cfg'].get('control')}|{case['spec']['y0']}|{case['cfg']['params']['rho']}" if len(rhos) > 1 else None,
+            "key": f"{case['spec']['tag']}|{case['cfg']['penalty']}|{case['cfg'].get('control')}|{case['spec']['y0']}|{sorted((k, str(v)[:12]) for k, v in case['cfg']['params'].items())}" if len(rhos) > 1 else None,
             "violations": viol, "stats": {"run": 1, "trials": len(ctx.rec.trials), "rho_changes": max(0, len(rhos) - 1)}}
 
 
